@@ -112,10 +112,12 @@ def _check_case(ctx, hist, res, n, tables, stats):
     pref = ()
     for li, (crash, evs) in enumerate(lts):
         if li >= len(res["lifetimes"]):
-            ctx.fail("case %d: lifetime %d was not executed" % (res["id"], li))
+            stats["infra"].append("case %d: lifetime %d was not executed" % (res["id"], li))
+            return
         lo = res["lifetimes"][li]
         if lo["exit"] != 0:
-            ctx.fail("case %d: child process failed (exit %s): %s" % (res["id"], lo["exit"], lo.get("stderr", "")[:1500]))
+            stats["infra"].append("case %d: child process failed (exit %s): %s" % (res["id"], lo["exit"], lo.get("stderr", "")[:1500]))
+            return
         got = [e for e in (lo["events"] or []) if e["ev"] in ("open", "offer", "reopen")]
         for j, r in enumerate(evs):
             exp = _abs_expected(r)
@@ -151,11 +153,52 @@ def _check_case(ctx, hist, res, n, tables, stats):
             return
         if crash is not None:
             if not lo["killed"]:
-                ctx.fail("case %d: crash point %s (height %s, iteration %s) was not reached although every observation before it "
-                         "matched the specification" % (res["id"], crash["point"], crash["height"], crash["iter"]))
+                # No observation deviated, yet the node never came to the scheduled point.  The generated schedule can no longer
+                # be followed; the rest of the case is judged by the property itself (monitor mode).
+                return _monitor_rest(ctx, hist, res, stats, li, len(evs), pref, crash)
             pref = pref + (_ckey(crash),)
             stats["crashes"].add(_ckey(crash))
     stats["clean"] += 1
+
+
+def _monitor_rest(ctx, hist, res, stats, li, j0, pref, unreached):
+    """A scheduled crash point was not reached in lifetime li.  Every remaining observation of the case (the rest of that
+    lifetime and all later lifetimes, whatever crashes they still hit) must satisfy the property itself: the ledger opens,
+    block / state / header height agree and the accumulator has height+1 leaves, the projection equals the crash-free run's at
+    the same height, the next block is accepted.  A deviation is a violation keyed by the last crash that did happen."""
+    last = pref[-1][0] if pref else "none"
+    for k in range(li, len(res["lifetimes"])):
+        lo = res["lifetimes"][k]
+        if lo["exit"] != 0:
+            stats["infra"].append("case %d: child process failed (exit %s): %s" % (res["id"], lo["exit"], lo.get("stderr", "")[:1500]))
+            return
+        got = [e for e in (lo["events"] or []) if e["ev"] in ("open", "offer", "reopen")]
+        if not got and not lo["killed"]:
+            stats["infra"].append("case %d: lifetime %d reported nothing" % (res["id"], k))
+            return
+        for j, g in enumerate(got):
+            if k == li and j < j0:
+                continue
+            stats["events"] += 1
+            what = None
+            if not g["ok"]:
+                what = "does-not-open" if g["ev"] in ("open", "reopen") else "refused-next-block"
+            elif not g["same"]:
+                what = "state-behind-block" if g["state"] < g["block"] else "state-ahead-of-block" if g["state"] > g["block"] else "inconsistent-heights"
+            elif not g["refEq"]:
+                what = "differs-from-crash-free-run"
+            if what:
+                ctx.violation("crash@%s:%s" % (last, what),
+                              {"crashes": [list(c) for c in pref], "lifetime": k, "event": j, "observed": {x: g.get(x) for x in ("ev", "ok", "block", "state", "header", "tree", "ctr", "err")},
+                               "diff_vs_reference": g.get("diff"),
+                               "note": "judged by the property alone: scheduled crash point %s (height %s, iteration %s) was never reached" % (unreached["point"], unreached["height"], unreached["iter"])},
+                              replay={"kind": "c12-case", "hist": hist, "result": res})
+                stats["deviating"] += 1
+                return
+        if lo["killed"] and k < len(_lifetimes(hist)) and _lifetimes(hist)[k][0] is not None:
+            last = _lifetimes(hist)[k][0]["point"]
+    stats["unreached"].append("case %d: crash point %s (height %s, iteration %s) was not reached; every observation of the case satisfies the property"
+                              % (res["id"], unreached["point"], unreached["height"], unreached["iter"]))
 
 
 def _replay_one(ctx, b):
@@ -171,7 +214,7 @@ def _replay_one(ctx, b):
     case = _case(0, hist, 1, n)
     out = ctx.driver(b, ["c12-replay", "1", str(n)], input_obj=[case], timeout=600)
     res = [o for o in out if "lifetimes" in o][0]
-    stats = {"events": 0, "clean": 0, "deviating": 0, "sig": set(), "crashes": set()}
+    stats = {"events": 0, "clean": 0, "deviating": 0, "sig": set(), "crashes": set(), "unreached": [], "infra": []}
     _check_case(ctx, hist, res, n, tables, stats)
     ctx.sample({"replayed_case": case, "observed": res})
     ctx.cov["evaluations"] = stats["events"]
@@ -198,7 +241,7 @@ def run(ctx):
     runs = (("Ledger_C12_gen_single.cfg", 3), ("Ledger_C12_gen_double.cfg", 3)) if q else \
            (("Ledger_C12_gen_thorough.cfg", 4), ("Ledger_C12_gen_triple.cfg", 3))
     nscripts = 2 if q else 4
-    stats = {"events": 0, "clean": 0, "deviating": 0, "sig": set(), "crashes": set()}
+    stats = {"events": 0, "clean": 0, "deviating": 0, "sig": set(), "crashes": set(), "unreached": [], "infra": []}
     ncases = children = 0
     for cfg, n in runs:
         hists = ctx.gen("Ledger", cfg, "TRACE", timeout=1500)
@@ -226,8 +269,13 @@ def run(ctx):
         sc = [o for o in out if o.get("scripts")]
         if sc:
             ctx.sample({"script_block_1": sc[0]["scripts"][0][0]})
-    ctx.note("%d cases, %d child processes, %d matched the intended model throughout, %d deviated; %d distinct crash sites"
-             % (ncases, children, stats["clean"], stats["deviating"], len(stats["crashes"])))
+    ctx.note("%d cases, %d child processes, %d matched the intended model throughout, %d deviated, %d not judged; %d distinct crash sites"
+             % (ncases, children, stats["clean"], stats["deviating"], len(stats["unreached"]), len(stats["crashes"])))
+    if stats["infra"] and not ctx.violations:
+        ctx.fail("%d cases failed for reasons outside the ledger, first: %s" % (len(stats["infra"]), stats["infra"][0]))
+    if stats["unreached"] and not ctx.violations:
+        ctx.fail("%d schedules could not be executed as generated (the code no longer passes the scheduled crash points), first: %s"
+                 % (len(stats["unreached"]), stats["unreached"][0]))
     ctx.cov["evaluations"] = stats["events"]
     ctx.cov["distinct_nontrivial"] = len(stats["crashes"]) + len(stats["sig"])
     ctx.cov["traces_validated_against_impl"] = 0
